@@ -131,6 +131,7 @@ class Ctx:
     def oracle(self, name, ok, inp=None, key=None, what=None):
         """one evaluation of the executable statement of the property on the implementation"""
         self.oracle_total += 1
+        self.last_oracle = (name, inp)
         if not ok:
             self.violations.append(dict(check=name, key=key or name, what=what or name, input=inp))
 
